@@ -1174,11 +1174,11 @@ func (cch *cache) Load() error {
 	case os.IsNotExist(err):
 		log.Debug("no cache file '%s', nothing to restore", cch.filePath)
 		return nil
+	case err != nil:
+		return cacheError("failed to load cache from file '%s': %v", cch.filePath, err)
 	case len(data) == 0:
 		log.Debug("empty cache file '%s', nothing to restore", cch.filePath)
 		return nil
-	case err != nil:
-		return cacheError("failed to load cache from file '%s': %v", cch.filePath, err)
 	}
 
 	return cch.Restore(data)
